@@ -1,0 +1,50 @@
+//go:build verif
+
+package dtlcp
+
+// Verification hooks (build tag `verif` only) for the replay window and the place of the
+// window in the receive paths. Nothing here is compiled without the tag.
+
+// VerifReplayWindow wraps the unexported replayWindow.
+type VerifReplayWindow struct{ w *replayWindow }
+
+// VerifNewReplayWindow calls newReplayWindow(size).
+func VerifNewReplayWindow(size int) *VerifReplayWindow {
+	return &VerifReplayWindow{w: newReplayWindow(size)}
+}
+
+// Check calls (*replayWindow).check(seq).
+func (v *VerifReplayWindow) Check(seq uint64) bool { return v.w.check(uint48(seq)) }
+
+// State returns the fields of the window.
+func (v *VerifReplayWindow) State() (right uint64, size int, bitmap uint64) {
+	return uint64(v.w.right), v.w.size, v.w.bitmap
+}
+
+// VerifConnReplayState returns the read epoch and the replay window of a connection
+// (ok=false when the connection has no window).
+func VerifConnReplayState(c *Conn) (epoch uint16, right uint64, size int, bitmap uint64, ok bool) {
+	c.in.Lock()
+	defer c.in.Unlock()
+	if c.replayWindow == nil {
+		return c.readEpoch, 0, 0, 0, false
+	}
+	return c.readEpoch, uint64(c.replayWindow.right), c.replayWindow.size, c.replayWindow.bitmap, true
+}
+
+// VerifConnReadError returns the permanent error latched on the read half, if any.
+func VerifConnReadError(c *Conn) error {
+	c.in.Lock()
+	defer c.in.Unlock()
+	return c.in.err
+}
+
+// VerifConnWindow wraps the replay window a connection currently uses (nil when none).
+func VerifConnWindow(c *Conn) *VerifReplayWindow {
+	c.in.Lock()
+	defer c.in.Unlock()
+	if c.replayWindow == nil {
+		return nil
+	}
+	return &VerifReplayWindow{w: c.replayWindow}
+}
